@@ -191,7 +191,11 @@ def run_cproc_tu(objdir, targ, prelude, probes, g2=""):
             raise vlib.MachineryError("cproc rejects the probe prelude for %s: %s" % (targ, err.strip()[:300]))
         rejected[live[idx].pid] = m.group(2)
         del live[idx]
-    raise vlib.MachineryError("more than 400 rejected probes in one TU (%s): %s" % (targ, list(rejected.items())[:3]))
+    # an implementation that refuses this many valid probes is reported through the ones found so far; the
+    # remaining probes of the TU count as refused with the last message (they were never observed)
+    for p in live:
+        rejected.setdefault(p.pid, "not observed: more than 400 probes of this translation unit were refused")
+    return {}, rejected
 
 
 def audit_tu(compiler, targ, prelude, probes, workdir, tag, g2=""):
@@ -274,7 +278,7 @@ def case_key(c):
     return ":".join(k)
 
 
-def judge(ctx, ps, got, rejected, targ):
+def judge(ctx, ps, got, rejected, targ, pretext="", g2=""):
     """Compare cproc's observations with the spec's, per expression."""
     byexpr = collections.OrderedDict()
     for p in ps:
@@ -282,15 +286,16 @@ def judge(ctx, ps, got, rejected, targ):
     for (_, etext), plist in byexpr.items():
         c = plist[0].case
         ctx.count(targ + "|" + etext, nontrivial=True)
+        rp = {"target": targ, "prelude": pretext, "lines": [p.cproc_line(g2) for p in plist], "want": [p.want for p in plist]}
         rej = [(p, rejected[p.pid]) for p in plist if p.pid in rejected]
         if rej and all(p.may_reject and "bitfield" in msg for p, msg in rej):
             ctx.violation("dev:SizeofSeesBitfield:%s" % c["site"], "cproc rejects `sizeof(%s)`: %s" % (etext, rej[0][1]),
-                          {"target": targ, "expr": etext, "case": c, "error": rej[0][1]})
+                          {"target": targ, "expr": etext, "case": c, "error": rej[0][1], "replay": rp})
             plist = [p for p in plist if p.pid not in rejected]
         elif rej:
             ctx.violation("reject:%s:%s:%s" % (c["site"], "+".join(c["ops"]), re.sub(r"[^a-z]+", "-", rej[0][1].lower())[:40]),
                           "cproc rejects a valid expression: %s (%s)" % (rej[0][0].cproc_line("G2"), rej[0][1]),
-                          {"target": targ, "expr": etext, "case": c, "error": rej[0][1]})
+                          {"target": targ, "expr": etext, "case": c, "error": rej[0][1], "replay": rp})
             continue
         obs = {(p.kind, p.expr): got[p.pid] for p in plist}
         if all(got[p.pid] == p.want for p in plist):
@@ -299,12 +304,12 @@ def judge(ctx, ps, got, rejected, targ):
         if c["devs"] and attributable and all(got[p.pid] == p.alt for p in attributable):
             ctx.violation("dev:%s:%s" % ("+".join(sorted(c["devs"])), c["site"]),
                           "type of `%s` is %s, C11 requires %s" % (etext, c["mod"], c["exp"]),
-                          {"target": targ, "expr": etext, "case": c})
+                          {"target": targ, "expr": etext, "case": c, "replay": rp})
             continue
         wrong = [p for p in plist if got[p.pid] != p.want][0]
         ctx.violation("type:%s:%s:%s" % (c["site"], "+".join(c["ops"]), case_key(c)),
                       "type of `%s` on %s: probe %s = %d, C11 (%s) requires %d" % (etext, targ, wrong.expr, got[wrong.pid], c["exp"], wrong.want),
-                      {"target": targ, "expr": etext, "case": c, "observed": {k[1]: v for k, v in obs.items()}})
+                      {"target": targ, "expr": etext, "case": c, "observed": {k[1]: v for k, v in obs.items()}, "replay": rp})
 
 
 def chunks(lst, n):
@@ -312,66 +317,77 @@ def chunks(lst, n):
         yield lst[i:i + n]
 
 
-def replay_and_audit(ctx, table, cases, objdir, label, audit_targets, per_tu=6000):
-    """Render `cases` (all of one target each) and run cproc + the reference compilers."""
+def replay_and_audit(ctx, table, cases, objdir, label, audit_targets, per_tu=6000, slice_cases=30000):
+    """Render `cases` and run cproc + the reference compilers.  Work is done target by target (x86_64 first: it gets the
+    full gcc + clang audit) and in slices of cases, so that memory stays bounded in the thorough tier; within a slice
+    the audit always precedes the judgement of the implementation."""
     bytarg = collections.defaultdict(list)
     for c in cases:
         bytarg[c["targ"]].append(c)
     stats = collections.Counter()
-    jobs = []
-    for targ, cl in sorted(bytarg.items()):
-        ps = ProbeSet(table)
-        pre_all, pre_nofixed = Prelude(table, True), Prelude(table, False)
-        for c in cl:
+    order = [t for t in ("x86_64-sysv", "aarch64", "riscv64") if t in bytarg]
+    for targ in order:
+        cl = []
+        for c in bytarg[targ]:
             if not c["certain"]:
                 stats["excluded_uncertain"] += 1
                 continue
-            for fld_t, fld_w in (("a", "aw"), ("b", "bw")):
-                if c.get(fld_w):
-                    pre_all.bf.add((c[fld_t], c[fld_w]))
-                    pre_nofixed.bf.add((c[fld_t], c[fld_w]))
-            enums = "enum " in json.dumps(c)
-            h = int(vlib.sha(case_key(c))[:4], 16)
-            # compat / near-miss / pointer-init probes: all small families, 1/16 of binary, 1/4 of conditional cases
-            deep = h % 16 == 0 if c["form"] == "bin" else h % 4 == 0 if c["form"] == "cond" else True
-            size = c["form"] != "bin" or h % 4 == 0 or not ctx.quick
-            for i, e in enumerate(expr_texts(c)):
-                ps.add_expr(c, e, enums=enums, deep=deep, szrej=c["szrej"][min(i, len(c["szrej"]) - 1)], size=size)
-        stats["exprs"] += ps.exprs
-        stats["probes"] += len(ps.probes)
-        jobs.append((targ, ps, pre_all, pre_nofixed))
+            # quick tier: every case on x86_64; on the other two targets every case that mentions a target-dependent
+            # type or is not a binary/conditional case, and a third of the rest (thorough: everything everywhere)
+            if ctx.quick and targ != "x86_64-sysv" and c["form"] in ("bin", "cond") and "char" not in (c["a"], c["b"]) \
+                    and int(vlib.sha(case_key(c))[:4], 16) % 3 != 0:
+                stats["quick_not_replayed_on_" + targ] += 1
+                continue
+            cl.append(c)
+        for sl in chunks(cl, slice_cases):
+            _replay_slice(ctx, table, sl, objdir, targ, targ in audit_targets, per_tu, stats)
+    ctx.cov.setdefault("stats", {})[label] = dict(stats)
+    return stats
+
+
+def _replay_slice(ctx, table, cl, objdir, targ, audit, per_tu, stats):
+    ps = ProbeSet(table)
+    pre_all, pre_nofixed = Prelude(table, True), Prelude(table, False)
+    for c in cl:
+        for fld_t, fld_w in (("a", "aw"), ("b", "bw")):
+            if c.get(fld_w):
+                pre_all.bf.add((c[fld_t], c[fld_w]))
+                pre_nofixed.bf.add((c[fld_t], c[fld_w]))
+        enums = "enum " in json.dumps(c)
+        h = int(vlib.sha(case_key(c))[:4], 16)
+        # compat / near-miss / pointer-init probes: all small families, 1/16 of binary, 1/4 of conditional cases
+        deep = h % 16 == 0 if c["form"] == "bin" else h % 4 == 0 if c["form"] == "cond" else True
+        size = c["form"] != "bin" or h % 4 == 0 or not ctx.quick
+        for i, e in enumerate(expr_texts(c)):
+            ps.add_expr(c, e, enums=enums, deep=deep, szrej=c["szrej"][min(i, len(c["szrej"]) - 1)], size=size)
+    stats["exprs"] += ps.exprs
+    stats["probes"] += len(ps.probes)
+    pretext, pretext_nf = pre_all.text(), pre_nofixed.text()
 
     def work(job):
-        kind, targ, ps, plist, pre = job
+        kind, plist = job
         if kind == "cproc":
-            return kind, targ, ps, plist, run_cproc_tu(objdir, targ, pre.text(), plist, ps.g2(True))
+            return kind, plist, run_cproc_tu(objdir, targ, pretext, plist, ps.g2(True))
         # gcc 12 has no enums with fixed underlying type: its G2 list ends before them (indices unchanged)
-        return kind, targ, ps, plist, audit_tu(kind, targ, pre.text(), plist, ctx.scratch, "%s_%s_%d" % (kind, targ, id(plist)),
-                                               ps.g2(kind != "gcc"))
+        return kind, plist, audit_tu(kind, targ, pretext if kind != "gcc" else pretext_nf, plist, ctx.scratch,
+                                     "%s_%s_%d" % (kind, targ, id(plist)), ps.g2(kind != "gcc"))
 
-    work_items = []
-    for targ, ps, pre_all, pre_nofixed in jobs:
-        for ch in chunks(ps.probes, per_tu):
-            work_items.append(("cproc", targ, ps, ch, pre_all))
-        if targ in audit_targets:
-            # the spec is audited in full on x86_64 (gcc and clang); on the other targets in full in the thorough
-            # tier and on every case that mentions a target-dependent type plus a 1/8 sample in the quick tier
-            def audited(p):
-                if targ == "x86_64-sysv" or not ctx.quick:
-                    return True
-                cc = p.case
-                return cc["form"] in ("chr", "lit", "flt", "un") or "char" in (cc.get("a"), cc.get("b")) or int(vlib.sha(case_key(cc))[:4], 16) % 8 == 1
-            for ch in chunks([p for p in ps.probes if audited(p)], per_tu):
-                work_items.append(("clang", targ, ps, ch, pre_all))
-            if targ == "x86_64-sysv":
-                nof = [p for p in ps.probes if not uses_fixed(p.case)]
-                for ch in chunks(nof, per_tu):
-                    work_items.append(("gcc", targ, ps, ch, pre_nofixed))
-    results = vlib.pmap(work, work_items, workers=12)
+    work_items = [("cproc", ch) for ch in chunks(ps.probes, per_tu)]
+    if audit:
+        # the spec is audited in full on x86_64 (gcc and clang); on the other targets in full in the thorough
+        # tier and on every case that mentions a target-dependent type plus a 1/8 sample in the quick tier
+        def audited(p):
+            if targ == "x86_64-sysv" or not ctx.quick:
+                return True
+            cc = p.case
+            return cc["form"] in ("chr", "lit", "flt", "un") or "char" in (cc.get("a"), cc.get("b")) or int(vlib.sha(case_key(cc))[:4], 16) % 8 == 1
+        work_items += [("clang", ch) for ch in chunks([p for p in ps.probes if audited(p)], per_tu)]
+        if targ == "x86_64-sysv":
+            work_items += [("gcc", ch) for ch in chunks([p for p in ps.probes if not uses_fixed(p.case)], per_tu)]
     audit_bad, tojudge = [], []
-    for kind, targ, ps, plist, res in results:
+    for kind, plist, res in vlib.pmap(work, work_items, workers=12):
         if kind == "cproc":
-            tojudge.append((plist, res, targ))
+            tojudge.append((plist, res))
             stats["cproc_probes"] += len(plist)
         else:
             stats["audit_%s_probes" % kind] += len(plist)
@@ -379,15 +395,13 @@ def replay_and_audit(ctx, table, cases, objdir, label, audit_targets, per_tu=600
                 if audit_exception(kind, p):
                     stats["audit_%s_exceptions" % kind] += 1
                     continue
-                audit_bad.append((kind, targ, p, msg))
+                audit_bad.append((kind, p, msg))
     if audit_bad:
-        kind, targ, p, msg = audit_bad[0]
+        kind, p, msg = audit_bad[0]
         raise vlib.MachineryError("SPEC-AUDIT: %d probes where %s disagrees with CTypes, first: %s target %s `%s` (spec: %s) case %s: %s" % (
             len(audit_bad), kind, kind, targ, p.audit_line("G2"), p.case["exp"], json.dumps(p.case), msg))
-    for plist, (got, rejected), targ in tojudge:
-        judge(ctx, plist, got, rejected, targ)
-    ctx.cov.setdefault("stats", {})[label] = dict(stats)
-    return stats
+    for plist, (got, rejected) in tojudge:
+        judge(ctx, plist, got, rejected, targ, pretext, ps.g2(True))
 
 
 def audit_exception(compiler, p):
@@ -405,7 +419,7 @@ def audit_exception(compiler, p):
 
 
 # ---- part 1: arithmetic operands, exhaustive ----------------------------------------------------------------
-def scalar(ctx, objdir):
+def scalar(ctx, objdir, replay=True):
     cfg = "MC_CTypes_quick.cfg" if ctx.quick else "MC_CTypes_thorough.cfg"
     r = ctx.tlc_must_pass("CTypesMC", cfg, workers=8 if ctx.quick else 12, timeout=1500, heap="3g")
     cases = [json.loads(v) for v in r.vcases]
@@ -423,12 +437,49 @@ def scalar(ctx, objdir):
         raise vlib.MachineryError("vacuity: branches/sites not enumerated: %s %s" % (need_br - set(brs), need_sites - set(sites)))
     ctx.cov["typecommonreal_branches"] = dict(brs)
     ctx.cov["sites"] = dict(sites)
+    if not replay:
+        return table, cases
     st = replay_and_audit(ctx, table, cases, objdir, "scalar", audit_targets=set(vlib.TARGETS))
     ctx.validated(len(cases))
     enum_probe(ctx, table, objdir)
+    near_miss_rejects(ctx, table, cases, objdir)
     for c in cases[:: max(1, len(cases) // 4)][:4]:
         ctx.sample({"case": c, "rendered": expr_texts(c)[0]})
     return table, cases
+
+
+def near_miss_rejects(ctx, table, cases, objdir):
+    """`__typeof__(E) *p = (N *)0;` with N a same-size type that CTypes says is NOT compatible with the type of E must be
+    refused (6.5.16.1p1): one compiler run per probe, a sample of the enumerated cases (all result types x near misses)."""
+    obs = {o["name"]: o for o in table["obs"]}
+    todo, seen = [], set()
+    for c in cases:
+        if not c["certain"] or c["exp"] != c["mod"] or c["exp"] not in obs or c["targ"] != "x86_64-sysv":
+            continue
+        h = int(vlib.sha(case_key(c))[:6], 16)
+        for n in obs[c["exp"]]["near"]:
+            k = (c["site"], c["exp"], n, h % 3)
+            if k in seen:
+                continue
+            seen.add(k)
+            pre = Prelude(table, True)
+            for fld_t, fld_w in (("a", "aw"), ("b", "bw")):
+                if c.get(fld_w):
+                    pre.bf.add((c[fld_t], c[fld_w]))
+            e = expr_texts(c)[0]
+            todo.append((c, e, n, pre.text() + "__typeof__(%s) *p = (%s *)0;\n" % (e, SPELL[n])))
+
+    def one(t):
+        rc, out, err = vlib.cproc(objdir, t[3], "x86_64-sysv", timeout=30)
+        return t, rc, err
+    for (c, e, n, src), rc, err in vlib.pmap(one, todo, workers=12):
+        ctx.count("nearmiss|%s|%s" % (e, n))
+        if rc == 1 and "error:" in err:
+            continue
+        ctx.violation("nearmiss:%s:%s:%s" % (c["site"], c["exp"], n),
+                      "cproc accepts `__typeof__(%s) *p = (%s *)0;` although the type of the expression is %s" % (e, SPELL[n], c["exp"]),
+                      {"target": "x86_64-sysv", "expr": e, "case": c, "rc": rc, "replay": {"source": src, "must": "reject"}})
+    ctx.cov.setdefault("stats", {})["near_miss_rejects"] = len(todo)
 
 
 def enum_probe(ctx, table, objdir):
@@ -640,7 +691,8 @@ def compat_target(ctx, objdir, targ, pre, batch, lines, rejects, stats):
                 ctx.violation("dev:CompositeIsFirst:%s" % kind, "after `%s x; %s x;` cproc refuses sizeof(x): %s" % (info["t1"], info["t2"], msg),
                               {"target": targ, "probe": lines[j], "types": info})
             else:
-                ctx.violation("compat:%s:rejected" % kind, "cproc rejects `%s` (%s), C11 accepts" % (lines[j], msg), {"target": targ, "probe": lines[j], "types": info, "error": msg})
+                ctx.violation("compat:%s:rejected" % kind, "cproc rejects `%s` (%s), C11 accepts" % (lines[j], msg),
+                              {"target": targ, "probe": lines[j], "types": info, "error": msg, "replay": {"target": targ, "source": pre + lines[j] + "\n", "must": "accept"}})
             continue
         if want is None:
             continue
@@ -652,7 +704,8 @@ def compat_target(ctx, objdir, targ, pre, batch, lines, rejects, stats):
                           {"target": targ, "probe": lines[j], "types": info})
         else:
             ctx.violation("compat:%s:%s" % (kind, "unexpected"), "`%s` = %s on %s, C11 requires %s (t1 = %s, t2 = %s)" % (lines[j], got, targ, want, info["t1"], info["t2"]),
-                          {"target": targ, "probe": lines[j], "types": info, "observed": got, "required": want})
+                          {"target": targ, "probe": lines[j], "types": info, "observed": got, "required": want,
+                           "replay": {"target": targ, "prelude": pre + "\n".join(l for l in lines[:j] if l.startswith(("extern", "T")) and " r" in l) + "\n", "lines": [lines[j]], "want": [want]}})
 
     def one(rj):
         kind, text, info = rj
@@ -665,7 +718,7 @@ def compat_target(ctx, objdir, targ, pre, batch, lines, rejects, stats):
             continue
         if rc == 0:
             ctx.violation("compat:%s:accepted" % kind, "cproc accepts `%s` (t1 = %s, t2 = %s), C11 requires a diagnostic" % (text, info["t1"], info["t2"]),
-                          {"target": targ, "probe": text, "types": info})
+                          {"target": targ, "probe": text, "types": info, "replay": {"target": targ, "source": pre + text + "\n", "must": "reject"}})
         else:
             ctx.violation("compat:%s:crash" % kind, "cproc dies on `%s`: rc=%s %s" % (text, rc, err[-200:]), {"target": targ, "probe": text})
 
@@ -825,13 +878,14 @@ def nested_probes(table, cases):
     return out
 
 
-def nested_judge(ctx, probes, got, rejected, targ, stats):
+def nested_judge(ctx, probes, got, rejected, targ, stats, pretext=""):
     bycase = collections.OrderedDict()
     for p in probes:
         bycase.setdefault(id(p.case), []).append(p)
     for plist in bycase.values():
         c = plist[0].case
         ctx.count(targ + "|" + c["e"], nontrivial=c["d"] >= 2)
+        rp = {"target": targ, "prelude": pretext, "lines": [p.cproc_line() for p in plist], "want": [p.want for p in plist]}
         stats["depth%d" % c["d"]] += 1
         def ok_want(p):
             return p.pid not in rejected and (p.kind == "ptrinit" or got[p.pid] == p.want)
@@ -846,7 +900,7 @@ def nested_judge(ctx, probes, got, rejected, targ, stats):
         ok_elsewhere = all(ok_alt(p) for p in plist)
         if c["devs"] and ok_elsewhere:
             ctx.violation("dev:nested:%s" % "+".join(sorted(c["devs"])), "type of `%s` is %s, C11 requires %s" % (c["e"], c["mod"], c["exp"]),
-                          {"target": targ, "expr": c["e"], "exp": c["exp"], "mod": c["mod"], "devs": c["devs"]})
+                          {"target": targ, "expr": c["e"], "exp": c["exp"], "mod": c["mod"], "devs": c["devs"], "replay": rp})
         else:
             notalt = [p for p in plist if not ok_alt(p)]
             p, msg = bad[0]
@@ -855,7 +909,7 @@ def nested_judge(ctx, probes, got, rejected, targ, stats):
                 msg = ("rejected: " + rejected[p.pid]) if p.pid in rejected else "= %s, required %s, model of the shipped code predicts %s" % (
                     got.get(p.pid), p.want, "rejection" if p.altrej else p.alt)
             ctx.violation("nested:%s:%s" % (p.kind, c["exp"]), "`%s` (C11 type %s) on %s: probe `%s` %s" % (c["e"], c["exp"], targ, p.cproc_line(), msg),
-                          {"target": targ, "expr": c["e"], "exp": c["exp"], "mod": c["mod"], "devs": c["devs"], "probe": p.cproc_line(), "observed": msg})
+                          {"target": targ, "expr": c["e"], "exp": c["exp"], "mod": c["mod"], "devs": c["devs"], "probe": p.cproc_line(), "observed": msg, "replay": rp})
 
 
 def nested(ctx, objdir):
@@ -920,7 +974,7 @@ def nested(ctx, objdir):
             len(bad), kind, targ, p.audit_line(), p.case["exp"], msg))
     # only a spec that passed its audit is allowed to judge the implementation
     for pr, (got, rejected), targ in tojudge:
-        nested_judge(ctx, pr, got, rejected, targ, stats)
+        nested_judge(ctx, pr, got, rejected, targ, stats, pre)
     ctx.cov.setdefault("stats", {})["nested"] = dict(stats)
     ctx.validated(len(uniq))
     deep = [c for c in uniq if c["d"] >= 3]
@@ -1007,6 +1061,35 @@ def traces(ctx, table, cases):
                   {"event": ev, "source": owners[stuck][0], "target": owners[stuck][1]})
 
 
+def replay(ctx, path):
+    """./check C05 --replay <file>: re-run exactly the stored probes and print required vs observed."""
+    d = json.load(open(path))
+    rp = d["case"].get("replay")
+    print("key:  %s\nwhat: %s" % (d["key"], d["what"]))
+    if not rp:
+        print("this case carries no replay data (trace events are replayed by re-running the check)")
+        return 2
+    objdir = private_build(ctx, "plain")
+    targ = rp.get("target", "x86_64-sysv")
+    if "source" in rp:
+        rc, out, err = vlib.cproc(objdir, rp["source"], targ)
+        print("required: %s   observed: rc=%d %s" % (rp["must"], rc, err.strip()[-200:]))
+        return 1 if (rc == 0) != (rp["must"] == "accept") else 0
+    bad = 0
+    for line, want in zip(rp["lines"], rp["want"]):
+        rc, out, err = vlib.cproc(objdir, rp["prelude"] + line + "\n", targ)
+        if rc != 0:
+            obs = "rejected: " + err.strip()[-160:]
+        else:
+            vals = parse_data_values(out)
+            m = re.search(r"\b([vp]\d+) =", line)
+            obs = vals.get(m.group(1)) if m else None
+        flag = "ok" if obs == want or (want is None and rc == 0) else "DIFFERS"
+        bad += flag != "ok"
+        print("%-7s required %-4s observed %-12s %s" % (flag, want, obs, line[:200]))
+    return 1 if bad else 0
+
+
 def private_build(ctx, flavour):
     """vlib.build evicts older builds of a flavour when /repo changes (other engineers commit hooks while we
     run); keep a private copy of the binary for the duration of this run."""
@@ -1029,7 +1112,14 @@ def run(ctx):
                        "x magnitude class), floating and character constants; every operator of a group and several spellings are "
                        "rendered; evaluations = rendered expressions x targets, each observed by >= 2 data probes; non-trivial = all")
     objdir = private_build(ctx, "plain")
-    table, cases = scalar(ctx, objdir)
-    compat(ctx, objdir)
-    nested(ctx, objdir)
-    traces(ctx, table, cases)
+    # C05_PARTS (development aid, e.g. for negative controls): comma-separated subset of scalar,compat,nested,traces
+    parts = set((os.environ.get("C05_PARTS") or "scalar,compat,nested,traces").split(","))
+    table = cases = None
+    if "scalar" in parts or "traces" in parts:
+        table, cases = scalar(ctx, objdir, replay="scalar" in parts)
+    if "compat" in parts:
+        compat(ctx, objdir)
+    if "nested" in parts:
+        nested(ctx, objdir)
+    if "traces" in parts:
+        traces(ctx, table, cases)
